@@ -3,13 +3,17 @@ import timedcheck
 
 OPS = [("(debounce 5)", 5), ("(debounce 2)", 2), ("(throttle 5 leading)", 5), ("(throttle 5 tailing)", 5), ("(throttle 5 all)", 5),
        ("(throttle 2 all)", 2), ("(buffer_with_time 5)", 5), ("(buffer_with_count_and_time 2 5)", 5), ("(buffer_with_count_and_time 0 5)", 5),
-       ("(buffer_with_count_and_time 3 2)", 2)]
+       ("(buffer_with_count_and_time 3 2)", 2),
+       # a window of length zero: its timer is due as soon as it is polled
+       ("(throttle 0 tailing)", 2), ("(throttle 0 all)", 2), ("(throttle 0 leading)", 2), ("(debounce 0)", 2)]
+# (buffer_with_time with a zero period is left out: its repeating task re-arms a timer that is due at once, so a single poll
+#  of the real task never returns; the documentation is silent about it and no property speaks of it)
 
 
 def run(tier, seed, replay=None):
     return timedcheck.run_timed_check(
         "C09", "C09", "C09 (subseq_ok / buffers_ok on the timed model)", OPS,
-        "debounce(5|2), throttle_time(5|2) x {leading, tailing, all}, buffer_with_time(5), buffer_with_count_and_time(2|0|3, 5|2) over a Subject "
+        "debounce(5|2|0), throttle_time(5|2|0) x {leading, tailing, all}, buffer_with_time(5), buffer_with_count_and_time(2|0|3, 5|2) over a Subject "
         "input, local and _threads forms: every label sequence of <= 4 labels over {next 1, next 2, complete, error, poll task 0/1/2, advance by "
         "w-1/w/w+1, unsubscribe, is_closed} and random sequences of 8-21 labels with gaps shorter than, equal to and longer than the window and both "
         "orders of same-instant input events and timer firings; observation = deliveries with virtual time stamps",
